@@ -204,6 +204,36 @@ func c17Sequential(c *vk.Ctx) {
 		}
 		ok := true
 		classes := map[string]bool{}
+		if h%7 == 3 {
+			// many tunnels of ONE client at once (users behind one NAT address sharing a key): 130, 300 and,
+			// once per run, 33000 - past the range of any narrow counter; the tunnel lasts until the last closes
+			many := 130
+			if h%14 == 10 {
+				many = 300
+			}
+			if h == 3 {
+				many = 33000
+			}
+			now := time.Duration(clk.ns.Load())
+			for i := 0; i < many; i++ {
+				ip, key := ips[0], keys[0]
+				var t *c17Tunnel
+				if i%3 == 2 {
+					m := sm.AddUDPNatEntry(&net.UDPAddr{IP: ip, Port: 1024 + i%60000, Zone: zoneOf[ip.String()]}, key)
+					t = &c17Tunnel{kind: "udp", ip: ip.String(), key: key, udp: m, authed: true}
+				} else {
+					conn := &fakeNetConn{remote: &net.TCPAddr{IP: ip, Port: 1024 + i%60000, Zone: zoneOf[ip.String()]}, local: &net.TCPAddr{IP: net.IPv4(203, 0, 113, 10), Port: 9000}}
+					m := sm.AddOpenTCPConnection(conn)
+					m.AddAuthenticated(key)
+					t = &c17Tunnel{kind: "tcp", ip: ip.String(), key: key, tcp: m, authed: true}
+				}
+				acc.open(ipKey{t.ip, key}, now)
+				open = append(open, t)
+			}
+			trace = append(trace, fmt.Sprintf("%v open %d tunnels (tcp and udp) of %s %s at once", now, many, ips[0], keys[0]))
+			classes["many-tunnels-of-one-client"] = true
+			c.Count("histories_with_many_tunnels_of_one_client", 1)
+		}
 		for op := 0; op < nOps && ok; op++ {
 			now := time.Duration(clk.ns.Load())
 			switch x := r.Intn(20); {
@@ -553,6 +583,7 @@ func init() {
 			c.Require("e2e_scrapes_checked")
 			c.Require("simultaneous_first_open_rounds")
 			c.Require("zoned_clients")
+			c.Require("histories_with_many_tunnels_of_one_client")
 			c.Require("histories_with_concatenation_prone_ids")
 			c.Require("histories_with_shared_client_ports")
 			c.Require("e2e_udp_shutdown_cases")
